@@ -33,7 +33,8 @@ func protocolMore(t *testing.T, bind *Binding, job *Job, p *sdl.Program, acc *st
 	case "C05":
 		var first *model.Obs
 		var firstSpec SpecData
-		for _, s := range sweepSpecs(p, job, SpecData{}) {
+		// (queries by interface and look-ups by name after the start: what they create is judged too)
+		for _, s := range sweepSpecs(p, job, SpecData{Lookups: true}) {
 			o := do(s)
 			if first == nil && o.OK() {
 				first, firstSpec = o, s
